@@ -171,6 +171,7 @@ func genC02RPC(t *rapid.T, label string) RPC {
 	r.PeerOpt = rapid.IntRange(0, 3).Draw(t, label+".peeropt") == 0
 	r.CallHeader = rapid.SampledFrom([]int{0, 1, 1, 2, -1}).Draw(t, label+".callheader")
 	r.ExtraRecvs = rapid.IntRange(0, 2).Draw(t, label+".extrarecvs")
+	r.Opt2 = (r.HdrOpt || r.TrlOpt || r.PeerOpt) && rapid.IntRange(0, 2).Draw(t, label+".opt2") == 0
 	return r
 }
 
